@@ -2018,10 +2018,10 @@ static void ring_def(int automorphism, uint64_t N, int64_t p, int64_t* res, cons
     else res[j - N] = -a[i];
   }
 }
-static int ring_once(int which, const MODULE* M, uint64_t N, int64_t p, uint64_t salt, int check_def) {
-  int64_t* a = malloc(N * 8);
-  int64_t* ip = malloc(N * 8);
-  int64_t* oop = malloc(N * 8);
+static int ring_once(int which, const MODULE* M, uint64_t N, int64_t p, uint64_t salt, int check_def, int64_t* work /* 4N words */) {
+  int64_t* a = work;  // (one allocation per case: 130000 malloc/free pairs per case only exercise ASan's quarantine)
+  int64_t* ip = work + N;
+  int64_t* oop = work + 2 * N;
   for (uint64_t i = 0; i < N; i++) a[i] = (int64_t)(mix64(salt + i) >> 4) - ((int64_t)1 << 58);
   memcpy(ip, a, N * 8);
   switch (which) {
@@ -2032,12 +2032,10 @@ static int ring_once(int which, const MODULE* M, uint64_t N, int64_t p, uint64_t
   }
   int bad = memcmp(ip, oop, N * 8) != 0;
   if (check_def && !bad) {
-    int64_t* d = malloc(N * 8);
+    int64_t* d = work + 3 * N;
     ring_def(which & 1, N, p, d, a);
     bad = memcmp(d, oop, N * 8) != 0;
-    free(d);
   }
-  free(a); free(ip); free(oop);
   return bad;
 }
 void ops_ring_history_case(int which, uint64_t N, int64_t pA, uint64_t N2, int64_t pB, int native, unsigned rep, const char* counter) {
@@ -2050,18 +2048,22 @@ void ops_ring_history_case(int which, uint64_t N, int64_t pA, uint64_t N2, int64
   uint64_t calls = 0, wrongA = 0, wrongB = 0;
   int firstbad = -1;
   static const int GAP[2] = {256, 65536};
-  wrongA += (uint64_t)ring_once(which, MA, N, pA, rep, 1);
+  int64_t* wa = malloc(4 * N * 8);
+  int64_t* wb = malloc(4 * N2 * 8);
+  wrongA += (uint64_t)ring_once(which, MA, N, pA, rep, 1, wa);
   calls++;
   for (int g = 0; g < 2; g++) {
     for (int i = 1; i < GAP[g]; i++) {
-      wrongB += (uint64_t)ring_once(which, MB, N2, pB, (uint64_t)i, i < 4);
+      wrongB += (uint64_t)ring_once(which, MB, N2, pB, (uint64_t)i, i < 4, wb);
       calls++;
     }
-    const int b = ring_once(which, MA, N, pA, rep + 1000 * (unsigned)(g + 1), 1);
+    const int b = ring_once(which, MA, N, pA, rep + 1000 * (unsigned)(g + 1), 1, wa);
     if (b && firstbad < 0) firstbad = GAP[g];
     wrongA += (uint64_t)b;
     calls++;
   }
+  free(wa);
+  free(wb);
   if (wrongA) viol("history", "%s in place (N=%" PRIu64 ", p=%" PRId64 ") differs from the out-of-place call / the definition: first wrong call made exactly %d in-place calls after the previous call on this ring (only %s in between)", nm[which], N, pA, firstbad, N2 == N ? "calls with another exponent" : "calls on a smaller ring");
   if (wrongB) viol("history", "%s in place (N=%" PRIu64 ", p=%" PRId64 "): %" PRIu64 " of the intermediate calls differ from the out-of-place call", nm[which], N2, pB, wrongB);
   cnt(counter, 2 * calls);
